@@ -65,3 +65,316 @@ PROPS["C14"] = dict(
         H("c14", "c14_bs_cap1_k5", "thorough", steps=5, bounds="BoundedStack<Tracked> cap 1, 5 ops"),
     ],
 )
+
+# --------------------------------------------------------------------------- C12
+_GROW0 = {r"hash_map::CaoHashMap::<.*>::(grow|adjust_capacity)$": 0}
+_GROW1 = {r"hash_map::CaoHashMap::<.*>::(grow|adjust_capacity)$": 1}
+
+
+_HM_GROW = {1: 3, 3: 6, 4: 6, 6: 9, 8: 12, 9: 13}
+
+
+def _cap_of(name):
+    import re
+    m = re.search(r"_c(\d+)", name)
+    return int(m.group(1)) if m else 8
+
+
+def _c12(name, tier="quick", nested=False, **kw):
+    if nested:
+        kw.update(heavy=True, timeout=3000)
+    lim = dict(_GROW1 if nested else _GROW0)
+    c = _cap_of(name)
+    post = _HM_GROW.get(c, c) if ("grow" in name or "two_ops" in name or "drops_insert" in name
+                                  or "drops_entry" in name) else c
+    m = __import__("re").search(r"reserve_c(\d+)_(\d+)", name)
+    if m:
+        post = int(m.group(1)) + int(m.group(2))
+    if "drops_reserve" in name:
+        post = c + 1
+    # the probe loop needs at most capacity iterations (+1 for the exit test)
+    lim[r"hash_map::CaoHashMap::<.*>::find_ind::<.*>#0"] = max(post, c) + 1
+    return H("c12", name, tier, limits=lim, **kw)
+
+
+
+PROPS["C12"] = dict(
+    functions=[
+        "CaoHashMap<u8,u8,SysAllocator>::{with_capacity_in,default,insert,insert_with_hint,remove,"
+        "remove_with_hint,get,get_with_hint,get_mut,get_with_hint_mut,contains,contains_with_hint,"
+        "entry,Entry::or_insert_with,reserve,grow,adjust_capacity,find_ind,needs_grow,clear,clone,"
+        "iter,iter_mut,len,is_empty,capacity,drop}",
+        "CaoHashMap<u8,Tracked,SysAllocator> (drop accounting), CaoHashMap<u8,u8,FailAt> (failing allocator)",
+        "hash_map::hash / CaoHasher::write for u8, u32, i64 keys",
+    ],
+    bounds="inductive step from an ARBITRARY valid bucket array (occupancy, keys, values solver-chosen; "
+           "representation invariant assumed) at concrete capacities 1,3,4,6 (quick: 3,6) and 8,9 "
+           "(thorough), one operation with solver-chosen arguments, invariant + abstract content "
+           "re-established at the post-capacity (growth steps 1->3, 3->4->6 nested, 4->6, 6->9, 8->12, "
+           "9->13); key type u8 through the real FNV hasher (collisions and wrap-around are solver-chosen); "
+           "hash!=0 over all u8/u32/i64 keys",
+    outside="capacities other than those listed (in particular > 12), key types other than u8/i64, "
+            "allocators other than the system one and the failing test allocator; the step from "
+            "'every step preserves the invariant' to 'every history' is the usual induction argument, "
+            "made outside the solver",
+    explanation="Inductive-step bounded model checking: instead of exploring operation histories the "
+                "pre-state is an arbitrary bucket array satisfying the representation invariant (hash "
+                "stored = hash(key), no duplicate key, every stored key reachable by the map's own probe "
+                "sequence, load within the growth threshold); the SAT solver decides for every such state "
+                "and every argument that one operation returns what a mathematical map returns, leaves "
+                "all other keys untouched (a solver-chosen query key), keeps len == number of entries and "
+                "re-establishes the invariant. Base case: a new map satisfies the invariant.",
+    assumptions=[
+        "representation invariant I1-I4 as stated in harness/src/c12.rs (pre-states are built through the verif_set_slot hook)",
+        "load limit of reachable states mirrors needs_grow (count <= 0.7*capacity)",
+        "Kani/CBMC model the dev profile; system allocator never fails except where the harness allocator is told to",
+    ],
+    level_text="Inductive-step bounded model checking of the real CaoHashMap code with Kani/CBMC: for each "
+               "listed capacity, every bucket array satisfying the representation invariant and every "
+               "argument, one insert/remove/get/get_mut/contains/entry/reserve/clear/clone/iter call behaves "
+               "like a mathematical map and re-establishes the invariant (including across growth), each "
+               "stored value is dropped exactly once, an allocation failure is an Err that loses nothing, "
+               "and no u8/u32/i64 key hashes to the reserved value. Counterexamples are replayed natively "
+               "(dev + release) before being reported.",
+    level_note="Trusted: Kani/CBMC/CaDiCaL; the invariant and model in harness/src/c12.rs; the induction "
+               "argument from single steps to histories; capacities are concrete and bounded as listed.",
+    design_ref="DESIGN.md §3 C12",
+    cap=dict(quick=600, thorough=3600),
+    harnesses=[_c12(n, t, nested=nest, steps=st, bounds=b) for (n, t, nest, st, b) in [
+        ("c12_base_new_c0", "quick", False, 1, "new map, requested capacity 0 (-> 1) and Default"),
+        ("c12_base_new_c4", "quick", False, 1, "new map, capacity 4"),
+        ("c12_base_new_c8", "thorough", False, 1, "new map, capacity 8"),
+        ("c12_insert_c1_grow", "thorough", False, 1, "capacity 1 (empty) + insert: growth 1->3"),
+        ("c12_insert_c3", "quick", False, 1, "any valid state at capacity 3 + insert(any,any), no growth"),
+        ("c12_insert_c3_grow", "thorough", True, 1, "capacity 3 at threshold + insert of a new key: growth 3->4->6 (nested)"),
+        ("c12_insert_c4", "quick", False, 1, "capacity 4 + insert, no growth"),
+        ("c12_insert_c4_grow", "quick", False, 1, "capacity 4 at threshold + insert: growth 4->6"),
+        ("c12_insert_c6", "thorough", False, 1, "capacity 6 + insert, no growth"),
+        ("c12_insert_c6_grow", "thorough", False, 1, "capacity 6 at threshold + insert: growth 6->9"),
+        ("c12_insert_c8", "thorough", False, 1, "capacity 8 + insert, no growth"),
+        ("c12_insert_c8_grow", "thorough", False, 1, "capacity 8 at threshold + insert: growth 8->12"),
+        ("c12_remove_c3", "quick", False, 1, "capacity 3 + remove(any)"),
+        ("c12_remove_c4", "quick", False, 1, "capacity 4 + remove(any)"),
+        ("c12_remove_c6", "thorough", False, 1, "capacity 6 + remove(any)"),
+        ("c12_remove_c8", "thorough", False, 1, "capacity 8 + remove(any)"),
+        ("c12_lookup_c3", "thorough", False, 1, "capacity 3: get/contains/get_mut"),
+        ("c12_lookup_c4", "quick", False, 1, "capacity 4: get/contains/get_mut"),
+        ("c12_lookup_c8", "thorough", False, 1, "capacity 8: get/contains/get_mut"),
+        ("c12_entry_c1_grow", "thorough", False, 1, "capacity 1 + entry: growth 1->3"),
+        ("c12_entry_c3", "thorough", False, 1, "capacity 3 + entry().or_insert_with, no growth"),
+        ("c12_entry_c3_grow", "thorough", True, 1, "capacity 3 at threshold + entry: growth 3->4"),
+        ("c12_entry_c4", "quick", False, 1, "capacity 4 + entry, no growth"),
+        ("c12_entry_c4_grow", "quick", False, 1, "capacity 4 at threshold + entry: growth 4->6"),
+        ("c12_entry_c6_grow", "thorough", False, 1, "capacity 6 at threshold + entry: growth 6->9"),
+        ("c12_entry_c8", "thorough", False, 1, "capacity 8 + entry, no growth"),
+        ("c12_entry_c8_grow", "thorough", False, 1, "capacity 8 at threshold + entry: growth 8->12"),
+        ("c12_clear_c4", "quick", False, 2, "capacity 4: clear then insert"),
+        ("c12_clone_c3", "thorough", False, 1, "capacity 3: clone"),
+        ("c12_clone_c4", "quick", False, 1, "capacity 4: clone"),
+        ("c12_reserve_c4_1", "quick", False, 1, "capacity 4: reserve(1)"),
+        ("c12_reserve_c3_3", "thorough", False, 1, "capacity 3: reserve(3)"),
+        ("c12_iter_c3", "thorough", False, 1, "capacity 3: iter/iter_mut"),
+        ("c12_iter_c4", "quick", False, 1, "capacity 4: iter/iter_mut"),
+        ("c12_two_ops_c3", "thorough", True, 2, "capacity 3: insert;remove / remove;insert"),
+        ("c12_two_ops_c4", "thorough", False, 2, "capacity 4: insert;remove / remove;insert"),
+        ("c12_drops_insert_c3", "thorough", True, 1, "capacity 3, Tracked values: insert then drop(map)"),
+        ("c12_drops_remove_c3", "quick", False, 1, "capacity 3, Tracked values: remove then drop(map)"),
+        ("c12_drops_clear_c3", "quick", False, 1, "capacity 3, Tracked values: clear then drop(map)"),
+        ("c12_drops_entry_c3", "thorough", True, 1, "capacity 3, Tracked values: entry then drop(map)"),
+        ("c12_drops_reserve_c3", "thorough", False, 1, "capacity 3, Tracked values: reserve then drop(map)"),
+        ("c12_drops_insert_c4", "quick", False, 1, "capacity 4, Tracked values: insert"),
+        ("c12_drops_remove_c4", "quick", False, 1, "capacity 4, Tracked values: remove"),
+        ("c12_allocfail_insert_c4", "quick", False, 1, "any valid state at capacity 4 at the threshold, the growth allocation fails: insert"),
+        ("c12_allocok_insert_c4", "thorough", False, 1, "same with the counting allocator not failing"),
+        ("c12_allocfail_entry_c4", "quick", False, 1, "same, entry"),
+        ("c12_allocfail_reserve_c4", "quick", False, 1, "same, reserve(1)"),
+        ("c12_allocfail_new", "quick", False, 1, "with_capacity_in(0..=8) with an allocator that fails at once"),
+        ("c12_hash_nonzero_u8", "quick", False, 1, "all u8 keys: hash != reserved 0"),
+        ("c12_hash_nonzero_u32", "quick", False, 1, "all u32 keys"),
+        ("c12_hash_nonzero_i64", "quick", False, 1, "all i64 keys"),
+        ("c12_i64_key_roundtrip", "thorough", False, 3, "all i64 keys: insert/get/remove on an empty map"),
+    ]
+    ],
+)
+
+
+# --------------------------------------------------------------------------- C13
+def _c13(name, tier, **kw):
+    c = _cap_of(name) if "_c" in name else 4
+    post = c
+    if "grow" in name or "fill" in name:
+        post = 2 * c
+    if "reserve_c4_4" in name:
+        post = 16
+    if "reserve_c4_3" in name:
+        post = 8
+    if "initcap" in name:
+        post = 16
+    return H("c13", name, tier, limits={r"handle_table::HandleTable::<.*>::find_ind#0": post + 1}, **kw)
+
+
+PROPS["C13"] = dict(
+    functions=[
+        "HandleTable<u8,SysAllocator>::{with_capacity,insert,_insert,remove,get,get_mut,contains,entry,"
+        "Entry::or_insert_with,reserve,grow,adjust_capacity,pad_pot,find_ind,clear,clone,iter,iter_mut,"
+        "Index<Handle>,len,is_empty,capacity,drop}",
+        "HandleTable<Tracked,SysAllocator> (drop accounting)",
+    ],
+    bounds="inductive step from an ARBITRARY valid slot array (occupancy, handles = any non-zero u32, values "
+           "solver-chosen; representation invariant assumed) at capacities 4 (quick) and 8 (thorough), one "
+           "operation with solver-chosen arguments, invariant + content re-established (growth 4->8, 8->16); "
+           "requested initial capacities 0,1,2,3,5,6,7,8,9 followed by one solver-chosen operation; public-API "
+           "fills of 3 and 5 distinct solver-chosen handles through insert and through entry; every probe loop "
+           "bounded by capacity+1 with unwinding assertions (a failure is non-termination)",
+    outside="capacities > 16, allocators other than the system one, handles produced by the FNV helpers "
+            "(Handle::from_bytes etc. may themselves produce the reserved 0)",
+    explanation="Inductive-step bounded model checking of the real HandleTable code (same scheme as C12), plus "
+                "termination by unwinding assertions: a masked linear probe that has not returned after "
+                "capacity steps has revisited its start.",
+    assumptions=[
+        "representation invariant as stated in harness/src/c13.rs (pre-states built through the verif_set_slot hook)",
+        "handles are non-zero (the property's domain)",
+        "Kani/CBMC model the dev profile; system allocator never fails",
+    ],
+    level_text="Inductive-step bounded model checking of the real HandleTable code with Kani/CBMC at capacities 4 "
+               "and 8 over all non-zero u32 handles: every operation behaves like a key-to-value map, re-establishes "
+               "the representation invariant (also across growth), terminates (unwinding assertions), drops each "
+               "value exactly once, and every requested initial capacity 0..=9 yields a usable table.",
+    level_note="Trusted: Kani/CBMC/CaDiCaL; the invariant and model in harness/src/c13.rs; the induction argument; "
+               "capacities bounded as listed.",
+    design_ref="DESIGN.md §3 C13",
+    cap=dict(quick=600, thorough=3600),
+    harnesses=[_c13(n, t, steps=st, bounds=b, **kw) for (n, t, st, b, kw) in [
+        ("c13_insert_c4", "quick", 1, "any valid state at capacity 4 + insert(any non-zero handle), below threshold", {}),
+        ("c13_insert_c4_grow", "quick", 1, "capacity 4 at threshold + insert: growth 4->8", {}),
+        ("c13_insert_zero_c4", "quick", 1, "capacity 4 + insert(handle 0) rejected", {}),
+        ("c13_remove_c4", "quick", 1, "capacity 4 + remove(any)", {}),
+        ("c13_lookup_c4", "quick", 1, "capacity 4: get/contains/index/get_mut", {}),
+        ("c13_entry_c4", "quick", 1, "capacity 4 + entry().or_insert_with, below threshold", {}),
+        ("c13_entry_c4_grow", "quick", 1, "capacity 4 at threshold + entry of a new handle", {}),
+        ("c13_clear_c4", "quick", 2, "capacity 4: clear then insert", {}),
+        ("c13_clone_c4", "quick", 1, "capacity 4: clone", {}),
+        ("c13_reserve_c4_3_m6", "thorough", 1, "capacity 4, slots 1,2 occupied: reserve(3) -> growth to 8", {}),
+        ("c13_reserve_c4_2_noop", "thorough", 1, "capacity 4, slots 0,2 occupied: reserve(2) is a no-op", {}),
+        ("c13_iter_c4", "quick", 1, "capacity 4: iter/iter_mut", {}),
+        ("c13_initcap_0", "quick", 1, "with_capacity(0) + one solver-chosen operation", {}),
+        ("c13_initcap_1", "thorough", 1, "with_capacity(1) + one operation", {}),
+        ("c13_initcap_2", "thorough", 1, "with_capacity(2) + one operation", {}),
+        ("c13_initcap_3", "quick", 1, "with_capacity(3) + one operation", {}),
+        ("c13_initcap_5", "thorough", 1, "with_capacity(5) + one operation", {}),
+        ("c13_initcap_6", "thorough", 1, "with_capacity(6) + one operation", {}),
+        ("c13_initcap_7", "thorough", 1, "with_capacity(7) + one operation", {}),
+        ("c13_initcap_8", "thorough", 1, "with_capacity(8) + one operation", {}),
+        ("c13_initcap_9", "thorough", 1, "with_capacity(9) + one operation", {}),
+        ("c13_fill_entry_c4_n5", "thorough", 5, "5 distinct handles through entry into capacity 4", {"hang_is_violation": True, "heavy": True, "timeout": 3000}),
+        ("c13_fill_insert_c4_n5", "thorough", 5, "5 distinct handles through insert into capacity 4", {"heavy": True, "timeout": 3000}),
+        ("c13_drops_insert_c4", "quick", 1, "capacity 4, Tracked values: insert then drop(table)", {}),
+        ("c13_drops_remove_c4", "quick", 1, "capacity 4, Tracked values: remove", {}),
+        ("c13_drops_clear_c4", "thorough", 1, "capacity 4, Tracked values: clear", {}),
+        ("c13_drops_entry_c4", "thorough", 1, "capacity 4, Tracked values: entry", {}),
+        ("c13_insert_c8", "thorough", 1, "capacity 8 + insert", {}),
+        ("c13_insert_c8_grow", "thorough", 1, "capacity 8 at threshold + insert: growth 8->16", {}),
+        ("c13_remove_c8", "thorough", 1, "capacity 8 + remove", {}),
+        ("c13_lookup_c8", "thorough", 1, "capacity 8 lookups", {}),
+        ("c13_entry_c8", "thorough", 1, "capacity 8 + entry", {}),
+        ("c13_entry_c8_grow", "thorough", 1, "capacity 8 at threshold + entry", {}),
+        ("c13_clone_c8", "thorough", 1, "capacity 8 clone", {}),
+        ("c13_reserve_c4_4_m9", "thorough", 1, "capacity 4, slots 0,3 occupied: reserve(4) -> growth to 16", {}),
+        ("c13_iter_c8", "thorough", 1, "capacity 8 iter", {}),
+    ]],
+)
+
+# --------------------------------------------------------------------------- C19
+_C19_PAIRS = [("nil_nil", "quick"), ("nil_int", "quick"), ("nil_real", "quick"), ("int_nil", "quick"),
+              ("int_int", "quick"), ("int_real", "quick"), ("real_nil", "quick"), ("real_int", "quick"),
+              ("real_real", "quick")]
+PROPS["C19"] = dict(
+    functions=[
+        "<Value as PartialEq>::eq, <Value as PartialOrd>::partial_cmp (lt/le/gt/ge), <Value as Hash>::hash, "
+        "Value::as_bool, Value::try_cast_match, TryFrom<Value> for i64 / f64",
+        "<CaoLangObject as PartialEq/PartialOrd/Hash> for strings, CaoLangObject::len, RuntimeData::init_string",
+        "hash_map::hash (CaoHasher) over Value",
+    ],
+    bounds="one harness per kind pair (9) / triple (9) over {nil, integer, real}; payloads fully "
+           "symbolic: all i64, all non-NaN f64; when an "
+           "integer is compared with a real, |i| <= 2^53 (beyond that i as f64 rounds; stated, not asserted)",
+    outside="NaN, signed zero for the hash law (documented exceptions); strings, tables and function values (harnesses over runtime-allocated strings of length <= 2 exist in harness/src/c19.rs but did not close within 20 minutes and are not part of the claim); integers beyond 2^53 in mixed integer/real comparisons",
+    explanation="Per kind tuple the SAT solver decides, over all payloads, the equivalence laws, "
+                "equal => equal hash, equal => neither less nor greater, asymmetry, agreement of < with the "
+                "numeric order the statement defines (nil as 0, a string as its length), truthiness, and that "
+                "none of these operations can panic.",
+    assumptions=[
+        "non-NaN reals",
+        "Kani/CBMC model the dev profile",
+    ],
+    level_text="Bounded model checking with Kani/CBMC of the real Value comparison, ordering, hashing and "
+               "truthiness code: for each of 9 kind pairs and 9 kind triples over nil/integer/real and ALL payload values (64-bit "
+               "integers, non-NaN doubles) the algebraic laws of the property are decided by the "
+               "SAT solver; counterexamples are replayed natively.",
+    level_note="Trusted: Kani/CBMC/CaDiCaL incl. its IEEE-754 encoding; reference order in harness/src/c19.rs; "
+               "kinds enumerated, not symbolic; tables excluded.",
+    design_ref="DESIGN.md §3 C19",
+    cap=dict(quick=600, thorough=2400),
+    harnesses=[H("c19", f"c19_pair_{p}", t, bounds=f"kind pair {p}, all payloads") for (p, t) in _C19_PAIRS]
+    + [H("c19", f"c19_triple_{t}", "quick" if t in ("int", "real") else "thorough", bounds=f"kind triple {t}: transitivity of ==")
+       for t in ["int", "real", "int_real_int", "nil_int_real"]]
+    + [H("c19", f"c19_order_trans_{t}", "quick" if t in ("int",) else "thorough", bounds=f"kind triple {t}: transitivity of <")
+       for t in ["int", "real", "int_real_int", "real_int_real", "nil_int_real"]],
+)
+
+# --------------------------------------------------------------------------- C16
+PROPS["C16"] = dict(
+    functions=[
+        "Card::{num_children,iter_children,iter_children_mut,get_child,get_child_mut,insert_child,"
+        "remove_child,replace_child} for all 43 card kinds",
+        "Module::{get_card,get_card_mut,walk_cards,insert_card,remove_card,replace_card,swap_cards}, "
+        "CardIndex::{from_slice,push_subindex,pop_subindex,cmp}",
+    ],
+    bounds="card level: every card kind (43), list-like kinds (composite, closure, array, call, native call, "
+           "dynamic call) at arities 0..=3, child index solver-chosen in 0..=6; module level: one concrete "
+           "two-function skeleton nesting if-else > composite > add and call > not to depth 3, CardIndex "
+           "solver-chosen (function 0..=2, 1..=3 sub-indices each 0..=3), pairs of such indices for swap",
+    outside="trees deeper than 3, more than 3 list children, other skeleton shapes, the wasm bindings, "
+            "sequences of more than two edits",
+    explanation="For a solver-chosen child index / CardIndex the SAT solver decides that child count, both "
+                "iterators and both lookups agree with the documented child order, that insert/remove/replace/"
+                "swap change exactly the addressed card (checked with a pre-order fingerprint computed from the "
+                "public fields, independent of the API under test) and that failed edits are no-ops.",
+    assumptions=[
+        "on a fixed-arity card insert_child replaces the child at the index (documented in the source); "
+        "'remove undoes insert' is asserted for list-like parents",
+        "Kani/CBMC model the dev profile",
+    ],
+    level_text="Bounded model checking with Kani/CBMC of the real Card child API (all 43 kinds, symbolic child index) "
+               "and of Module get/walk/insert/remove/replace/swap on a depth-3 skeleton with symbolic CardIndex "
+               "values, against a tree-edit model and a structural fingerprint.",
+    level_note="Trusted: Kani/CBMC/CaDiCaL; the documented child order encoded in harness/src/c16.rs; shapes are "
+               "concrete (kinds, arities, skeleton), indices symbolic.",
+    design_ref="DESIGN.md §3 C16",
+    cap=dict(quick=600, thorough=2400),
+    harnesses=[H("c16", n, t, bounds=b) for (n, t, b) in [
+        ("c16_children_binary", "quick", "17 binary kinds: count/iter/get agree, index symbolic"),
+        ("c16_children_unary_ternary_misc", "quick", "unary, ternary, set-var, repeat, for-each kinds"),
+        ("c16_children_leaves", "thorough", "10 leaf kinds"),
+        ("c16_children_lists_a0", "thorough", "6 list-like kinds, arity 0"),
+        ("c16_children_lists_a1", "thorough", "6 list-like kinds, arity 1"),
+        ("c16_children_lists_a3", "quick", "6 list-like kinds, arity 3"),
+        ("c16_replace_binary", "thorough", "replace_child on binary kinds"),
+        ("c16_replace_misc", "quick", "replace_child on unary..leaf kinds"),
+        ("c16_replace_lists_a2", "quick", "replace_child on list-like kinds, arity 2"),
+        ("c16_insert_remove_binary", "thorough", "insert_child (= replace) on binary kinds"),
+        ("c16_insert_remove_misc", "quick", "insert_child on unary..leaf kinds"),
+        ("c16_insert_remove_lists_a0", "thorough", "insert then remove on list-like kinds, arity 0"),
+        ("c16_insert_remove_lists_a2", "quick", "insert then remove on list-like kinds, arity 2"),
+        ("c16_remove_binary", "thorough", "remove_child on binary kinds"),
+        ("c16_remove_misc", "quick", "remove_child on unary..leaf kinds"),
+        ("c16_remove_lists_a1", "thorough", "remove_child on list-like kinds, arity 1"),
+        ("c16_remove_lists_a3", "quick", "remove_child on list-like kinds, arity 3"),
+        ("c16_module_get", "quick", "get_card/get_card_mut resolve any index like the reference navigation"),
+        ("c16_module_walk", "quick", "walk_cards: every card once, index resolves to it"),
+        ("c16_module_replace", "quick", "replace_card twice = identity; invalid index is a no-op"),
+        ("c16_module_insert_remove", "quick", "insert_card then remove_card = identity; invalid index is a no-op"),
+        ("c16_module_remove", "quick", "remove_card returns the addressed card; invalid index is a no-op"),
+        ("c16_module_swap", "quick", "swap twice = identity; ancestor/invalid swaps fail and are no-ops"),
+    ]],
+)
